@@ -490,7 +490,7 @@ def validate_records(ctx, files, full, timeout=3000):
 ASSUMPTIONS = [
     "binary serix only (W1); the JSON/map form, the stream helpers, the Deserializer primitives and "
     "SerializableOrderedMap are W2's",
-    "types: the 73 catalogue types of spec/wire/catalogue.json (every schema constructor, prefix widths 1/2/4/8, "
+    "types: the 75 catalogue types of spec/wire/catalogue.json (every schema constructor, prefix widths 1/2/4/8, "
     "all array rules); shapes outside the catalogue are not exercised on the real code",
     "byte strings: exhaustive up to length 6 over {0,1,2,255} (thorough: {0,1,2,128,255}) per type - in the quick tier "
     "strings that extend a complete encoding by more than one byte are pruned (PrefixOnly) -, beyond that seeded mutations of "
